@@ -26,6 +26,7 @@ type Term struct {
 	Val  ssa.Value     // originating value (outermost), may be nil
 	Typ  types.Type
 	ID   string // identity tag: distinguishes otherwise equal-looking but possibly different values
+	C    *Ctx   // owning context (φ terms), for case splitting
 	key  string
 	str  string
 }
@@ -348,7 +349,7 @@ func (c *Ctx) term(v ssa.Value) *Term {
 	case *ssa.Alloc:
 		return &Term{Kind: "alloc", Name: "&" + x.Comment + "#" + c.instrID(x), Val: x}
 	case *ssa.Phi:
-		return &Term{Kind: "phi", Name: x.Comment + "#" + c.instrID(x), Val: x}
+		return &Term{Kind: "phi", Name: x.Comment + "#" + c.instrID(x), Val: x, C: c}
 	case *ssa.UnOp:
 		switch x.Op {
 		case token.MUL:
@@ -836,6 +837,10 @@ func (c *Ctx) inlinable(f *ssa.Function) bool {
 	if f.Recover != nil {
 		return false
 	}
+	// no side effects, directly or through callees: the call can be replaced by its value
+	if !c.p.readOnly(f) {
+		return false
+	}
 	for _, b := range f.Blocks {
 		for _, in := range b.Instrs {
 			switch x := in.(type) {
@@ -1158,4 +1163,103 @@ func isCallTo(t *Term, fn *ssa.Function) bool {
 
 func isExtractOf(t *Term, idx int, inner func(*Term) bool) bool {
 	return t != nil && t.Kind == "extract" && t.Name == fmt.Sprint(idx) && len(t.Args) == 1 && inner(t.Args[0])
+}
+
+// boolFieldExit computes, for a loop-free function, the value of the boolean field f of the
+// object denoted by recv at function exit, as a formula over the field's value on entry (pre)
+// and the branch atoms. Loads of the field are resolved to the value reaching them.
+func (c *Ctx) boolFieldExit(recv *Term, f *types.Var) (post *Formula, pre *Term, err error) {
+	if c.fi.hasLoop {
+		return nil, nil, fmt.Errorf("%s has a loop", funcID(c.fn))
+	}
+	pre = &Term{Kind: "field", Name: f.Name(), Obj: f, Args: []*Term{recv}, ID: "pre", Typ: f.Type()}
+	isLoc := func(addr ssa.Value) bool {
+		fa, ok := addr.(*ssa.FieldAddr)
+		if !ok || fieldOfAddr(fa) != f {
+			return false
+		}
+		b := c.Term(fa.X)
+		if b.Kind == "unop" && b.Name == "&" {
+			b = b.Args[0]
+		}
+		return b.Key() == recv.Key()
+	}
+	n := len(c.fn.Blocks)
+	valIn := make([]*Formula, n)
+	valOut := make([]*Formula, n)
+	loadVal := map[string]*Formula{}
+	for _, b := range topoBlocks(c.fn) {
+		for _, p := range b.Preds {
+			if valOut[p.Index] == nil {
+				return nil, nil, fmt.Errorf("blocks of %s are not topologically ordered", funcID(c.fn))
+			}
+		}
+		var cur *Formula
+		if b.Index == 0 {
+			cur = Atom(pre)
+		} else {
+			var alts []*Formula
+			for _, p := range b.Preds {
+				alts = append(alts, And(c.edgePC(p, b), valOut[p.Index]))
+			}
+			cur = Or(alts...)
+		}
+		valIn[b.Index] = cur
+		for _, in := range b.Instrs {
+			switch x := in.(type) {
+			case *ssa.Store:
+				if isLoc(x.Addr) {
+					cur = c.Formula(x.Val)
+				}
+			case *ssa.UnOp:
+				if x.Op == token.MUL && isLoc(x.X) {
+					loadVal[c.Term(x).Key()] = cur
+				}
+			case ssa.CallInstruction:
+				for _, g := range c.p.calleesOf(x) {
+					if c.p.mayMutate(g, f) {
+						return nil, nil, fmt.Errorf("%s calls %s which may write %s", funcID(c.fn), funcID(g), f.Name())
+					}
+				}
+			}
+		}
+		valOut[b.Index] = cur
+	}
+	var alts []*Formula
+	for _, b := range c.fn.Blocks {
+		if _, ok := b.Instrs[len(b.Instrs)-1].(*ssa.Return); ok {
+			alts = append(alts, And(c.BlockPC(b), valOut[b.Index]))
+		}
+	}
+	post = Or(alts...)
+	for i := 0; i < 8; i++ {
+		next := post.Subst(func(t *Term) *Formula { return loadVal[t.Key()] })
+		if next == post {
+			break
+		}
+		post = next
+	}
+	return post, pre, nil
+}
+
+// topoBlocks: blocks of a loop-free function in a topological order of the CFG.
+func topoBlocks(fn *ssa.Function) []*ssa.BasicBlock {
+	seen := map[*ssa.BasicBlock]bool{}
+	var post []*ssa.BasicBlock
+	var dfs func(b *ssa.BasicBlock)
+	dfs = func(b *ssa.BasicBlock) {
+		if seen[b] {
+			return
+		}
+		seen[b] = true
+		for _, s := range b.Succs {
+			dfs(s)
+		}
+		post = append(post, b)
+	}
+	dfs(fn.Blocks[0])
+	for i, j := 0, len(post)-1; i < j; i, j = i+1, j-1 {
+		post[i], post[j] = post[j], post[i]
+	}
+	return post
 }
